@@ -13,11 +13,12 @@ static const char* GLOBALS =
     "const S csa[2] = {{1, {1, 2}}, {1, {1, 2}}}; S msa[2];\n"
     "typedef const int CI; CI tci = 1;\n"
     "const struct { int f; } cas = {1}; struct { int f; } mas;\n"
+    "typedef struct { const int lim[2]; int cur; } cfg_t; cfg_t cfg = {{1, 2}, 0}; typedef struct { int lim[2]; int cur; } mcfg_t; mcfg_t mcfg = {{1, 2}, 0};\n"
     "void f_int(int& p) { p = 1; }\n";
 
 // int-typed l-values: {const, mutable twin}, reachable from an edge update and from a function body
 static const char* GLV[][2] = {{"ci", "mi"}, {"ca[1]", "ma[1]"}, {"cs.f", "ms.f"}, {"cs.a[1]", "ms.a[1]"}, {"csa[1].f", "msa[1].f"}, {"csa[0].a[mi]", "msa[0].a[mi]"},
-                               {"tci", "mi"}, {"cas.f", "mas.f"}, {"ca[mi]", "ma[mi]"}};
+                               {"tci", "mi"}, {"cas.f", "mas.f"}, {"ca[mi]", "ma[mi]"}, {"cfg.lim[0]", "mcfg.lim[0]"}, {"cfg.lim[mi]", "mcfg.cur"}};
 static const int NGLV = sizeof GLV / sizeof GLV[0];
 // write forms over an int l-value L (M is an unrelated mutable int)
 static const int NWF = 16;
@@ -60,7 +61,7 @@ static void verdicts(const std::string& cmodel, const std::string& mmodel)
     vf_reach("end");
 }
 
-extern "C" void harness_global_const()  /* vf: bounds=9_access_paths_into_const_globals(scalar,array_element,struct_field,nested,typedef_const,anonymous_const_struct)_x_16_write_forms_x_placement(edge_update,function_body) */
+extern "C" void harness_global_const()  /* vf: bounds=11_access_paths(incl._a_const_member_array_inside_a_mutable_struct)_into_const_globals(scalar,array_element,struct_field,nested,typedef_const,anonymous_const_struct)_x_16_write_forms_x_placement(edge_update,function_body) */
 {
     int src = vf_pick("!source", NGLV), w = vf_pick("!write", NWF), infun = vf_pick("!in_function", 2);
     auto mk = [&](const char* L) {
@@ -80,13 +81,14 @@ extern "C" void harness_whole_object()  /* vf: bounds=assignment_of_whole_const_
     verdicts(wrap(d, CASES[k][0]), wrap(d, CASES[k][1]));
 }
 
-extern "C" void harness_template_ref_argument()  /* vf: bounds=const_object_bound_to_non-const_reference_parameter_of_a_template;9_access_paths+whole_array/struct */
+extern "C" void harness_template_ref_argument()  /* vf: bounds=const_object_bound_to_non-const_reference_parameter_of_a_template;11_access_paths(incl._a_const_member_array_inside_a_mutable_struct)+whole_array/struct */
 {
     int src = vf_pick("!source", NGLV + 2);
     const char* cl; const char* ml; const char* ptype;
     if (src < NGLV) { cl = GLV[src][0]; ml = GLV[src][1]; ptype = "int& r"; }
     else if (src == NGLV) { cl = "ca"; ml = "ma"; ptype = "int& r[3]"; }
     else { cl = "cs"; ml = "ms"; ptype = "S& r"; }
+    if (src == 10) { cl = "cfg.lim[1]"; ml = "mcfg.lim[1]"; }
     if (src == 5 || src == 8) { cl = src == 5 ? "csa[0].a[1]" : "ca[2]"; ml = src == 5 ? "msa[0].a[1]" : "ma[2]"; }  // instantiation arguments must be compile-time computable
     auto mk = [&](const char* L) { return wrap("", "", ptype, std::string("P0 = P(") + L + "); system P0;"); };
     verdicts(mk(cl), mk(ml));
@@ -112,12 +114,14 @@ extern "C" void harness_locals_and_parameters()  /* vf: bounds=const_local,const
     verdicts(cm, mm);
 }
 
-extern "C" void harness_binders()  /* vf: bounds=select_binder,for-iteration_binder,forall/exists/sum_binder_x_16_write_forms;twin_writes_a_mutable_in_the_same_place_(no_twin_for_quantifier_bodies:they_must_be_side-effect_free_anyway) */
+extern "C" void harness_binders()  /* vf: bounds=select_binder(fresh_or_shadowing_a_global/template-local),for-iteration_binder,forall/exists/sum_binder_x_16_write_forms;twin_writes_a_mutable_in_the_same_place_(no_twin_for_quantifier_bodies:they_must_be_side-effect_free_anyway) */
 {
-    int src = vf_pick("!binder", 6), w = vf_pick("!write", NWF);
+    int src = vf_pick("!binder", 8), w = vf_pick("!write", NWF);
     std::string cm, mm;
     switch (src) {
     case 0: cm = wrap("", wform(w, "k", false), "", "P0 = P(); system P0;", "select k : int[0,1];"); mm = wrap("", wform(w, "mi", false), "", "P0 = P(); system P0;", "select k : int[0,1];"); break;
+    case 6: cm = wrap("", wform(w, "mi", false), "", "P0 = P(); system P0;", "select mi : int[0,1];"); mm = wrap("", wform(w, "mi", false)); break;   // a select binder that shadows a global is a constant all the same
+    case 7: cm = wrap("", wform(w, "tl", false), "", "P0 = P(); system P0;", "select tl : int[0,1];", " int tl = 1;\n"); mm = wrap("", wform(w, "tl", false), "", "P0 = P(); system P0;", "", " int tl = 1;\n"); break;
     case 1: cm = wrap("void w() { for (k : int[0,1]) " + wform(w, "k") + "; }\n", "w()"); mm = wrap("void w() { for (k : int[0,1]) " + wform(w, "mi") + "; }\n", "w()"); break;
     case 2: cm = wrap("void w() { for (k : int[0,1]) { { " + wform(w, "k") + "; } } }\n", "w()"); mm = wrap("void w() { for (k : int[0,1]) { { " + wform(w, "mi") + "; } } }\n", "w()"); break;
     case 3: cm = wrap("bool q() { return forall (k : int[0,1]) (" + wform(w, "k") + ") > 0; }\n", "mi = q()"); break;
